@@ -34,6 +34,20 @@ fn staged(native: bool) -> Run {
     r
 }
 
+thread_local! {
+    /// `unregistered` variants: the vAMM's OWN insurance_fund setting points at a second fund
+    /// instance, which lists it (the engine's fund does not)
+    static FOREIGN: std::cell::Cell<bool> = std::cell::Cell::new(false);
+}
+
+fn foreign_fund(f: impl Fn()) -> impl Fn() {
+    move || {
+        FOREIGN.with(|c| c.set(true));
+        f();
+        FOREIGN.with(|c| c.set(false));
+    }
+}
+
 fn flags(opk: u8, paused: bool, closed: bool, unregistered: bool, native: bool) -> impl Fn() {
     flags_b(opk, paused, closed, unregistered, native, false)
 }
@@ -61,7 +75,13 @@ fn flags_b(opk: u8, paused: bool, closed: bool, unregistered: bool, native: bool
         }
         if unregistered {
             let v = r.w.vamms[0].to_string();
-            assert!(r.w.ins_exec(OWNER, &InsExec::RemoveVamm { vamm: v }).ok);
+            assert!(r.w.ins_exec(OWNER, &InsExec::RemoveVamm { vamm: v.clone() }).ok);
+            if FOREIGN.with(|c| c.get()) {
+                let fund2 = r.w.instantiate_second_fund();
+                assert!(r.w.exec(OWNER, &fund2, &InsExec::AddVamm { vamm: v }, &[]).ok);
+                let m = VammExec::UpdateConfig { base_asset_holding_cap: None, open_interest_notional_cap: None, toll_ratio: None, spread_ratio: None, fluctuation_limit_ratio: None, margin_engine: None, insurance_fund: Some(fund2.to_string()), pricefeed: None, spot_price_twap_interval: None };
+                assert!(r.w.vamm_exec(OWNER, 0, &m).ok);
+            }
         }
         symrt::set_full(true);
         let a = amount("amt", d, false, 3);
@@ -231,7 +251,10 @@ pub fn scenarios(seed: u64) -> Vec<Scenario> {
             let (p, c, u) = (bits & 1 != 0, bits & 2 != 0, bits & 4 != 0);
             v.push(sc("C14", Tier::Quick, &format!("c14.flags.{}.p{}c{}u{}", names[opk as usize], p as u8, c as u8, u as u8), d, 200, 60, flags(opk, p, c, u, false)));
         }
-        v.push(sc("C14", Tier::Thorough, &format!("c14.flags.{}.paused.native", names[opk as usize]), d, 200, 60, flags(opk, true, false, false, true)));
+        v.push(sc("C14", Tier::Quick, &format!("c14.flags.{}.paused.native", names[opk as usize]), d, 200, 60, flags(opk, true, false, false, true)));
+        if matches!(opk, 0 | 3 | 4 | 5) {
+            v.push(sc("C14", Tier::Quick, &format!("c14.flags.{}.unregistered.foreign-fund", names[opk as usize]), "as c14.flags ... u1; in addition the vAMM's own insurance_fund setting names a second fund instance that lists the vAMM (the engine's fund does not)", 200, 60, foreign_fund(flags(opk, false, false, true, false))));
+        }
         for bits in [1u8, 2, 4] {
             let (p, c, u) = (bits & 1 != 0, bits & 2 != 0, bits & 4 != 0);
             v.push(sc("C14", Tier::Quick, &format!("c14.flags.{}.p{}c{}u{}.band", names[opk as usize], p as u8, c as u8, u as u8), "as c14.flags with a tight price band and 25% partial close / liquidation fraction configured (partial arms)", 200, 60, flags_b(opk, p, c, u, false, true)));
